@@ -20,7 +20,7 @@
 From Coq Require Import List ZArith NArith Bool Arith Lia.
 From GoProbe.Base Require Import CorrLib.
 From GoProbe.C04 Require Import Model.
-From GoProbe.C30 Require Import C04P1 C04PC Model Corr Proofs Proofs2 Proofs3 WInv RSpec REnv RThm.
+From GoProbe.C30 Require Import C04P1 C04PC Model Corr Proofs Proofs2 Proofs3 WInv RSpec REnv RThm RAcc.
 Import ListNotations.
 
 (* Every interleaving is covered by the exploration: for ALL histories, reader kinds and results. *)
@@ -93,6 +93,29 @@ Theorem c30_snapshot_partial : forall ws out, Forall wf_w ws -> ts_incr ws -> to
   exists o, out = Ok o /\ o_broken o = 0 /\ Forall (day_ok ws) (o_days o).
 Proof. exact query_snapshot. Qed.
 Print Assumptions c30_snapshot_partial.
+
+(* The same two theorems with the hypotheses Forall wf_w / ts_incr replaced by ONE executable acceptance test on the
+   history (RAcc.v): `accepted ws` folds the write-outs over the abstract database (adb_put, the function spec_db
+   folds) and requires of each write-out a non-empty bytes_rcvd column and a timestamp newer than every block
+   already committed for its day - the check of GPDir.WriteBlocks (ErrTimestampNotIncreasing, gpdir.go) that the
+   model's writer itself does not enforce (it only rejects a duplicate timestamp). ts_acc [] ws = true -> ts_incr ws
+   (c30_ts_acc_incr) and forallb wf_b ws = true <-> Forall wf_w ws (c30_wf_b_iff) are proved in RAcc.v.
+   totals_no_recur remains a hypothesis. *)
+Theorem c30_snapshot_accepted : forall ws out, accepted ws = true -> totals_no_recur ws ->
+  conc (cal_of ws) fs_empty (hist_ops fs_empty ws) (reader_prog true) out ->
+  exists o, out = Ok o /\ o_broken o = 0 /\ Forall (day_ok ws) (o_days o).
+Proof. exact RAcc.c30_snapshot_accepted. Qed.
+Print Assumptions c30_snapshot_accepted.
+
+Theorem c30_listing_snapshot_accepted : forall ws out, forallb wf_b ws = true -> totals_no_recur ws ->
+  conc (cal_of ws) fs_empty (hist_ops fs_empty ws) (reader_prog false) out ->
+  exists o, out = Ok o /\ Forall (tot_ok ws) (o_tots o).
+Proof. exact RAcc.c30_listing_snapshot_accepted. Qed.
+Print Assumptions c30_listing_snapshot_accepted.
+
+(* non-vacuity: hist1 is accepted *)
+Example c30_accepted_hist1 : accepted hist1 = true.
+Proof. vm_compute. reflexivity. Qed.
 
 (* non-vacuity: hist1 (three write-outs to one day, the last with unchanged totals) meets the assumptions *)
 Example c30_hyp_example : Forall wf_w hist1 /\ ts_incr hist1 /\ totals_no_recur hist1.
